@@ -83,6 +83,7 @@ def case_strategy():
             "seed": st.integers(0, 2**32 - 1),
             "target": st.one_of(
                 st.tuples(st.just(0), st.integers(0, 64)),
+                st.just((0, 0)),
                 st.tuples(st.integers(1, 3), st.integers(-8, 8)),
                 st.tuples(st.integers(0, 2), st.integers(0, 8191)),
             ),
@@ -385,6 +386,41 @@ def sweep_execute(case, stats):
     execute(full, stats)
 
 
+# ------------------------------------------------------------------------------------------ two blocks, two keys
+def priority_enumerate(tier, shard, nshards):
+    """Payloads holding two blocks under different keys - the first right at offset 0 (or a few bytes in), the second
+    behind it: whichever entry point is used and however the key list is given, the block reported is the one the
+    documented key order selects (keys are tried in list order, each over the whole payload)."""
+    from ..runner import shard_iter
+
+    def gen():
+        keysets = [{"mode": "default", "list": []}, {"mode": "list", "include": False, "list": [0x69, 0x00]}, {"mode": "list", "include": False, "list": [0x00, 0x69]},
+                   {"mode": "list", "include": False, "list": [0xAF, 0x00]}, {"mode": "list", "include": False, "list": [0x2E, 0xAF, 0x00]}]  # fmt: skip
+        for first in (0x00, 0x2E, 0x69, 0xAF):
+            for second in (0x00, 0x2E, 0x69, 0xAF):
+                if first == second:
+                    continue
+                for d in (0, 3):
+                    for entry in ("bytes", "file", "path"):
+                        for km in keysets:
+                            yield {"first": first, "second": second, "d": d, "entry": entry, "keys": km}
+
+    return shard_iter(gen(), shard, nshards)
+
+
+def priority_execute(case, stats):
+    blocks = [
+        {"proto": 8, "settings": [(2, SHORT, b"\x11\x5c"), (37, INT, b"\x00\x00\x00\x01")], "key": case["first"], "pad": "zero", "gap": 0},
+        {"proto": 0, "settings": [(2, SHORT, b"\x1f\x90"), (37, INT, b"\x00\x00\x00\x02")], "key": case["second"], "pad": "zero", "gap": 40},
+    ]
+    full = {
+        "blocks": blocks, "filler": "random", "seed": 77 + case["first"] * 3 + case["second"], "target": (0, case["d"]), "container": "raw",
+        "arch": "x86", "stub": b"", "nonce": b"\x13\x57\x9b\xdf", "marker_mode": "both", "prepend": 0, "stub_decoy": None, "tail": 10,
+        "bufsize": None, "keys": case["keys"], "entry": case["entry"],
+    }  # fmt: skip
+    execute(full, stats)
+
+
 # ------------------------------------------------------------------------------------------ small XorEncoded stages
 def small_enumerate(tier, shard, nshards):
     """Stages well below 1 KiB/2 KiB: a short prepend holding a false e_lfanew (pointing into or past the end of the
@@ -483,4 +519,5 @@ SUBS = [
     Sub("real_samples_and_large_payloads", big_execute, enumerate=big_enumerate, exhaustive=True),
     Sub("extract", execute, strategy=case_strategy, examples={"quick": 2400, "thorough": 48000}),
     Sub("boundary_sweep", sweep_execute, enumerate=sweep_enumerate, exhaustive=True),
+    Sub("key_priority", priority_execute, enumerate=priority_enumerate, exhaustive=True),
 ]
